@@ -60,8 +60,11 @@ pub fn replay(run: &[Value], _sub: &str) -> Vec<Value> {
 fn cls(op: &str, x: &RawIv, y: Option<&RawIv>, size: u64) -> &'static str {
     let single = |r: &RawIv| r.start == r.end;
     let zero = |r: &RawIv| single(r) && to_i128(&r.start) == 0;
+    let corner = |r: &RawIv, v: i128| to_i128(&r.start) == v || to_i128(&r.end) == v;
     match (op, y) {
         ("Piece", Some(y)) if single(y) && !single(x) && ((x.stride as u128) << (8 * y.width())) > u64::MAX as u128 => "piece_stride_overflow",
+        ("IntMult", Some(y)) if corner(x, -1) && to_i128(&y.start) == smin(y.width()) => "mul_neg1_times_min",
+        ("IntLeft", Some(y)) if corner(x, -1) && single(y) && y.start.try_to_u64().ok() == Some(8 * x.width() - 1) => "mul_neg1_times_min",
         ("IntMult", Some(y)) if (zero(x) && !single(y)) || (zero(y) && !single(x)) => "mul_by_zero",
         ("IntZExt", _) if size > 8 && to_i128(&x.start) < 0 && to_i128(&x.end) >= 0 => "zext_wide_sign_crossing",
         _ => "",
